@@ -120,6 +120,12 @@ package datastore
 //@            (called(Modify, 0) && callres(Modify, 0, 0) != nil) || (called(Modify, 1) && callres(Modify, 1, 0) != nil) ||
 //@            (called(Modify, 2) && callres(Modify, 2, 0) != nil) ||
 //@            (called(StartRollbackTimer) && callres(StartRollbackTimer, 0, 0) != nil)
+// the updates of the response are the new-or-updated view of the tree, the view the target renders from, all of it
+//@   internal the_response_reports_what_goes_to_the_device [C03]: r1 == nil && called(cacheUpdateToSdcpbUpdate) ==>
+//@            callarg(cacheUpdateToSdcpbUpdate, 0, 0) == callres(GetHighestPrecedence, 0) && callarg(GetHighestPrecedence, 0, 1) &&
+//@            (callres(cacheUpdateToSdcpbUpdate, 0, 1) == nil ==> len(callres(cacheUpdateToSdcpbUpdate, 0, 0)) == len(callres(GetHighestPrecedence, 0)))
+//@   loop 2 invariant every_value_was_reported [C03]: callres(cacheUpdateToSdcpbUpdate, 0, 1) == nil ==> len(callres(cacheUpdateToSdcpbUpdate, 0, 0)) == len(callres(GetHighestPrecedence, 0))
+//@   loop 3 invariant every_value_was_reported [C03]: callres(cacheUpdateToSdcpbUpdate, 0, 1) == nil ==> len(callres(cacheUpdateToSdcpbUpdate, 0, 0)) == len(callres(GetHighestPrecedence, 0))
 //@   internal accepted_run_is_applied [C02 C07]: r1 == nil && !dryRun && called(Validate) && !anyErrors(validationResult) ==> ntrace() > n0
 // all of running goes into the same tree: a leaf the device holds keeps its container from being deleted as a whole
 //@   internal running_is_loaded_in_full [C01 C09]: called(Validate) ==> called(populateTreeWithRunning) &&
@@ -146,6 +152,14 @@ package datastore
 //@   loop 3 invariant all_of_the_former_version_is_removed_there [C01 C02]: called(Modify, 0) ==> callarg(Modify, 0, 4) == callres(ToStringSlice, 0) &&
 //@            callarg(ToStringSlice, 0, 0) == callres(GetPaths, 0) && callarg(GetPaths, 0, 0) == callres(ToPathSet, 2) &&
 //@            callarg(ToPathSet, 2, 0) == callarg(GetFirstPriorityValue, 2, 0) && callarg(GetFirstPriorityValue, 2, 0) == callarg(GetFirstPriorityValue, 1, 0)
+
+// C03: what the response reports as updates is every value that goes to the device (the same slice is rendered for the
+// target), one report per value, in the same order: a dry run predicts the real run
+//@ func cacheUpdateToSdcpbUpdate
+//@   props C03
+//@   nosafety only the number of reports is claimed here (the entries come from a walk over a tree built by the tree constructors)
+//@   ensures every_value_is_reported [C03]: r1 == nil ==> len(r0) == len(lvs)
+//@   loop 0 invariant len(result) == $n
 
 // C01 / C02: the alternatives. The intents left out may hold that many of the best priorities of a path, so one priority
 // more is read; every entry read that is not owned by one of them goes into the tree, the others never do.
